@@ -682,7 +682,8 @@ void Egraph::undoDistinction(PTRef tr_d) {
     auto index = enode_store.getDistIndex(tr_d);
     Pterm const & pt_d = logic.getPterm(tr_d);
     for (PTRef tr_c : pt_d) {
-        getEnode(enode_store.getERef(tr_c)).clearDistClass(index);
+        // assertDist sets the flag on the root of the argument's class, and everything merged since has been undone
+        getEnode(getEnode(enode_store.getERef(tr_c)).getRoot()).clearDistClass(index);
     }
 }
 
